@@ -50,7 +50,7 @@ func c07Env_() *c07Env {
 		e := &c07Env{user: model.UserCtx()}
 		for s := 0; s < model.NShapes; s++ {
 			q := model.BuildShape(base, s)
-			o := model.Observe(q)
+			o := model.ObserveAs(q, base)
 			o.AdoptMeta(base)
 			e.real = append(e.real, q)
 			e.obs = append(e.obs, o)
